@@ -63,6 +63,7 @@ def c12_evidence_extra(agg: dict) -> dict:
         "simulated_time": "none - the system has no clock; logical time is the count of geometer LINE events",
         "reasks_compared_bitwise": st.get("reasks", 0),
         "numeric_noise": st.get("numeric_noise", 0),
+        "representative_noise": st.get("representative_noise", 0),
         "faults_fired": fired,
         "configurations": agg["configs"],
         "distinct_switch_sites": len(st.get("switch_sites", {})),
